@@ -11,14 +11,18 @@ tie:             (a) trace validation: every (thread, event) trace logged from t
                      (driver: threads-explore / threads-run / lr-run)
 search (oracle): per-thread outcome == the same call alone; no internal error; no deadlock — under
                  forced schedules (region, event, line/opcode granularity) and free-running stress
+nested entries:  harness/props/c15_nested.py — parse actions / conditions that call parse_string / scan_string /
+                 search_string / transform_string on a shared sub-grammar (model: `Act.entry`, `Locks`)
 """
 from __future__ import annotations
 
 import json
+import sys
 import threading
 
 from .. import common
 from ..sexp import Sym, dumps, loads
+from . import c15_nested as N
 from . import c15_sched as S
 
 META = dict(
@@ -40,6 +44,20 @@ META = dict(
          "(packrat_equal_input_shared_entries: a call is served another call's complete cached parse of a "
          "value-equal string) is replayed. 'Nothing deadlocks' is additionally checked for lazily consumed "
          "scan_string generators whose consumer waits for another thread's parse between matches (oracle only). "
+         "NESTED entry-point calls (a parse action or condition calling parse_string / scan_string / search_string / "
+         "transform_string of a shared sub-grammar, to any depth): in modes off/packrat they are part of the thread "
+         "machine (Act.entry = a second reset_cache() + parse on top of the running parse), so all theorems above cover "
+         "them; over BOTH class-level locks and all three modes Locks.lock_order_no_deadlock proves that threads whose "
+         "acquisitions respect one global order never deadlock (any number of threads, all schedules, RLock "
+         "re-entrancy), and Locks.nested_entry_no_deadlock instantiates it with the order of the unchanged code "
+         "(recursion_lock before packrat_cache_lock: Forward.parseImpl holds recursion_lock around actions whose nested "
+         "reset_cache() takes packrat_cache_lock; nothing takes recursion_lock while holding packrat_cache_lock); "
+         "Locks.Ex.two_orders_unorderable / two_orders_deadlock show the hypothesis cannot be dropped. Checked on the real "
+         "code: every thread's logged lock operations respect that order; the model predicts the complete event trace "
+         "of nested-call grammars under forced schedules (off/packrat); and the scheduler explores ALL lock-region "
+         "interleavings plus every placement of the other threads' entry relative to a first thread's lock operations "
+         "(modes off / packrat 0,2,128,None / left-recursion with equal inputs), reporting deadlocks (detected by the "
+         "scheduler, no timeouts) and outcomes that differ from the serial run. "
          "The model is tied to /repo by validating every logged event trace of "
          "the wrapped real locks/cache/memo against the Lean event semantics and by predicting the exact "
          "event trace and results of the real code under model-enumerated forced schedules.",
@@ -50,7 +68,10 @@ META = dict(
          "the deterministic scheduler in harness/props/c15_sched.py. Element parsing itself is abstracted "
          "(an element = a deterministic function of its children's results); exception messages are not "
          "compared; _LRUMemo (bounded LR memo) is not modelled; enable_*/disable_memoization during "
-         "concurrent parsing is out of scope.",
+         "concurrent parsing is out of scope. Locks (Part 5): a thread is abstracted to the list of its lock "
+         "operations; that the real threads' sequences have the shapes PackratProg / LRProg (hence are ordered) is "
+         "checked on every logged trace of the nested-call leg (`locks-check`), not derived from the source; the "
+         "nested-call grammars' actions are harness code that brackets the nested call with marker pseudo-events.",
     technique="Lean 4 proof over a small-step N-thread model + trace validation + forced-schedule correspondence",
     design="§5 C15",
 )
@@ -64,6 +85,12 @@ THEOREMS = [
     "PP.Threads.concurrent_eq_serial",
     "PP.Threads.no_internal_error",
     "PP.Threads.no_deadlock",
+    "PP.Threads.Locks.lock_order_no_deadlock",
+    "PP.Threads.Locks.packrat_nested_ordered",
+    "PP.Threads.Locks.lr_nested_ordered",
+    "PP.Threads.Locks.nested_entry_no_deadlock",
+    "PP.Threads.Locks.Ex.two_orders_unorderable",
+    "PP.Threads.Locks.Ex.two_orders_deadlock",
     "PP.Threads.LR.lr_race_witness",
     "PP.Threads.LR.lr_reset_race_witness",
 ]
@@ -172,6 +199,8 @@ def mk_call(pp, expr, entry, s):
     if entry == "search":
         return lambda: outcome_of(pp, lambda: "search " + repr(
             [S.canon_results(t) for t in expr.search_string(s)]))
+    if entry == "transform":
+        return lambda: outcome_of(pp, lambda: "xform " + repr(expr.transform_string(s)))
     raise ValueError(entry)
 
 
@@ -806,7 +835,11 @@ def run(ctx):
         "modes off/packrat(0,1,2,3,128,None) x ALL region-granularity interleavings enumerated by the model "
         "(limit per case) + random event-granularity schedules; non-trivial = trace contains a cache lookup; "
         "scan_string/search_string cases included; fine = line/opcode pre-emption inside _parseCache, "
-        "reset_cache, Forward.parseImpl and the cache/memo methods; stress = free-running, switchinterval 1e-6")
+        "reset_cache, Forward.parseImpl and the cache/memo methods; stress = free-running, switchinterval 1e-6; "
+        "nested = 6 grammar shapes whose action/condition re-parses the match through a shared sub-grammar (4 entry "
+        "points, depth 1-2) x 2-3 threads x modes off/packrat(0,2,128,None)/left-recursion: depth-first search over "
+        "all lock-region interleavings of the real code (limit per case) + placements at lock operations; "
+        "non-trivial = some thread performs a nested reset_cache()")
     # corpus first
     import time as _t
     tm = ctx.notes.setdefault("leg_seconds", {})
@@ -820,6 +853,8 @@ def run(ctx):
     timed("lr_witness", leg_lr_witness, ctx, pp)
     timed("tagged", leg_tagged, ctx, pp)
     timed("pipeline", leg_pipeline, ctx, pp)
+    this = sys.modules[__name__]
+    timed("nested", N.leg_nested, ctx, this, pp)
     cases = timed("forced", leg_forced, ctx, pp, case_list(ctx, pp))
     timed("lr_same_input", leg_lr_same_input, ctx, pp)
     small = [c for c in cases if c.mode in (("packrat", 0), ("packrat", 1), ("packrat", 2), ("off",))]
@@ -841,6 +876,8 @@ def run(ctx):
     leg_stress(ctx, pp, pa[::3], ctx.budget(1, 4), "parse-all")
     if ctx.broken and not ctx.fail_inputs:
         # a proof obligation / trace validation / correspondence broke: search harder for a failing input
+        timed("nested_search", N.leg_nested, ctx, this, pp, True)
+    if ctx.broken and not ctx.fail_inputs:
         leg_fine(ctx, pp, small, ctx.budget(25, 100), "search")
         if not ctx.fail_inputs:
             leg_stress(ctx, pp, cases, ctx.budget(4, 12), "search")
@@ -853,7 +890,9 @@ def replay(data):
         ctx = common.Ctx("C15", "quick", data.get("seed", 0))
         run(ctx)
         return bool(ctx.broken or ctx.fail_inputs)
-    if case.get("scenario") in ("tagged", "pipeline"):
+    if case.get("scenario") == "nested":
+        c = N.build(sys.modules[__name__], pp, case)
+    elif case.get("scenario") in ("tagged", "pipeline"):
         c = build_scenario(pp, case)
     else:
         c = Case(pp, case["mode"], case["grammar"], case["entry"], case["inputs"], lr=case.get("lr", False)).learn()
